@@ -471,12 +471,72 @@ theorem C18_window_bound_with_cleanup (rules : List Rule) (maxIp : Int)
       runOps_inv rules maxIp hmax (op :: ops) op.time [] [] (inv_init rules op.time) hm adm dq h
     exact hinv.bound r hr hf a
 
-/-- **Finding (cleanup clears a specific rule's history)** — without `maxInterval rules ≤ maxIp`
-    the bound is false: specific rule `1/m`, generic ip rules no longer than `1 s`; the address
-    sends at t=0, some connection ends at t=3 (`cleanup()`), and the address sends again at t=4:
-    two messages admitted inside one minute. -/
+theorem foldl_max_ge_init {α : Type} (f : α → Int) (l : List α) (m : Int) : m ≤ l.foldl (fun acc x => max acc (f x)) m := by
+  induction l generalizing m with
+  | nil => exact Int.le_refl _
+  | cons a rest ih =>
+    simp only [List.foldl_cons]
+    exact Int.le_trans (Int.le_max_left _ _) (ih _)
+
+theorem foldl_max_ge_mem {α : Type} (f : α → Int) (l : List α) (m : Int) (x : α) (hx : x ∈ l) :
+    f x ≤ l.foldl (fun acc x => max acc (f x)) m := by
+  induction l generalizing m with
+  | nil => cases hx
+  | cons a rest ih =>
+    simp only [List.foldl_cons]
+    rcases List.mem_cons.mp hx with rfl | h
+    · exact Int.le_trans (Int.le_max_right _ _) (foldl_max_ge_init f rest _)
+    · exact ih _ h
+
+/-- **C18 (cleanup forgets nothing a per-address rule still needs)** — the threshold `cleanup()` uses is
+    at least the longest interval of every per-address rule list: the generic `ip` rules and the rules of
+    every specific-address section.  With `C18_window_bound_with_cleanup` (whose hypothesis is exactly
+    this inequality) the window bound therefore survives `cleanup()` calls at any time, for specific
+    addresses too.  (The pinned code took the threshold from the `ip` rules only — and did no cleanup at
+    all without them; repaired by a `fix:` commit.) -/
+theorem C18_cleanup_threshold_covers (cfg : Config) :
+    (∀ e ∈ cfg.ipRules, maxInterval e.2 ≤ cleanupThreshold cfg) ∧
+    (∀ sec ∈ cfg.specific, ∀ e ∈ sec.2, maxInterval e.2 ≤ cleanupThreshold cfg) := by
+  unfold cleanupThreshold
+  constructor
+  · intro e he
+    -- the ip part is the starting value of the fold over the specific sections
+    have h1 : maxInterval e.2 ≤ cfg.ipRules.foldl (fun m e => max m (maxInterval e.2)) 0 :=
+      foldl_max_ge_mem (fun e => maxInterval e.2) cfg.ipRules 0 e he
+    refine Int.le_trans h1 ?_
+    generalize cfg.ipRules.foldl (fun m e => max m (maxInterval e.2)) 0 = ip
+    induction cfg.specific generalizing ip with
+    | nil => exact Int.le_refl _
+    | cons sec rest ih =>
+      simp only [List.foldl_cons]
+      exact Int.le_trans (foldl_max_ge_init (fun e => maxInterval e.2) sec.2 ip) (ih _)
+  · intro sec hsec e he
+    generalize cfg.ipRules.foldl (fun m e => max m (maxInterval e.2)) 0 = ip
+    generalize cfg.specific = sp at hsec ⊢
+    induction sp generalizing ip with
+    | nil => cases hsec
+    | cons sec' rest ih =>
+      simp only [List.foldl_cons]
+      rcases List.mem_cons.mp hsec with rfl | h
+      · have h1 := foldl_max_ge_mem (fun e => maxInterval e.2) sec.2 ip e he
+        refine Int.le_trans h1 ?_
+        generalize sec.2.foldl (fun m' e => max m' (maxInterval e.2)) ip = m0
+        clear ih hsec h1
+        induction rest generalizing m0 with
+        | nil => exact Int.le_refl _
+        | cons s2 r2 ih2 =>
+          simp only [List.foldl_cons]
+          exact Int.le_trans (foldl_max_ge_init (fun e => maxInterval e.2) s2.2 m0) (ih2 _)
+      · exact ih _ h
+
+/-- what happened on the pinned tree (threshold from the generic ip rules only): specific rule `1/m`,
+    generic ip rules no longer than `1 s`; the address sends at t=0, some connection ends at t=3
+    (`cleanup()`), and the address sends again at t=4: two messages admitted inside one minute. -/
 theorem C18_cleanup_clears_specific_witness :
     (runOps [⟨60, 1⟩] 1 [.msg 0, .cleanup 3, .msg 4] [] []).map (·.1) = some [4, 0] := by decide
+
+-- with the repaired threshold (≥ 60) the second message is refused
+example : (runOps [⟨60, 1⟩] 60 [.msg 0, .cleanup 3, .msg 4] [] []).map (·.1) = some [0] := by decide
 
 /-! ## non-vacuity and negation witnesses (tests, labelled as tests) -/
 
